@@ -299,6 +299,27 @@ def f32_map_conflicting_keys():
             return f"Map(Option('A.X'), {{'A': ..., 'A.X': ...}}).{name}({o}) fails with {type(e).__name__} ({e}), not an EvaluationError"
 
 
+def f33_datasetclass_under_apply_bypasses_request():
+    from labrea import datasetclass
+    from labrea.types import EvaluateRequest, _evaluate_request
+    from labrea.runtime import handle
+
+    @datasetclass
+    class Inner:
+        a: int = Option("A")
+    for build, name in ((lambda: Inner >> (lambda inst: inst.a), "Inner >> f"), (lambda: Inner.bind(lambda inst: Value(inst.a)), "Inner.bind(f)")):
+        seen = []
+
+        def passthrough(req):
+            seen.append(req.evaluatable)
+            return _evaluate_request(req)
+        e = build()
+        with handle(EvaluateRequest, passthrough):
+            e({"A": 3})
+        if not any(x is Inner for x in seen):
+            return f"{name}: a pass-through EvaluateRequest handler never saw the evaluation of the dataset class (seen: {[repr(x)[:40] for x in seen]})"
+
+
 def scenarios():
     return {k: v for k, v in list(globals().items()) if k.startswith("f") and callable(v) and k[1].isdigit()}
 
